@@ -513,7 +513,8 @@ impl GenOpts {
         GenOpts {
             max_states: if thorough { 14 } else { 8 },
             max_depth: if thorough { 4 } else { 3 },
-            events: ["e1", "e2", "e3", "e4"].iter().map(|s| s.to_string()).collect(),
+            // one name extends another by a token: the descriptor `e1` also matches the event `e1.a` (token prefix)
+            events: ["e1", "e2", "e3", "e1.a"].iter().map(|s| s.to_string()).collect(),
             dm,
             w_parallel: 3,
             w_history: 2,
@@ -822,6 +823,11 @@ pub fn generate(rng: &mut Rng, o: &GenOpts, name: &str) -> Doc {
                         }
                         if g.rng.chance(1, 12) {
                             ev = vec!["*".to_string()];
+                        } else if g.rng.chance(1, 10) {
+                            // equivalent descriptor spellings
+                            let k = g.rng.below(ev.len());
+                            let suffix = if g.rng.chance(1, 2) { ".*" } else { "." };
+                            ev[k].push_str(suffix);
                         }
                         ev
                     };
